@@ -22,6 +22,12 @@ Two further blocks on the same machinery:
     form x e/E x exponent sign) and its strings as \\uXXXX escapes, in a document and as command line / environment
     text, compared with the plain spelling through the same channel and mode.
 
+Three further blocks live in mc/checks/c05_more.py (cases with a key "block"): undefined keys derived from the parser's
+own names ("or is rejected in every case"), parsers with a history (every sequence of <= L uses / documented
+re-configurations / registration as a sub-command before the parse, against a parser built directly in the final
+configuration), and the env / defaults flags of the parse methods with the settings split between the environment and
+another carrier in every way.
+
 Oracle (differential, no hand-written expectation): all observations of one setting - typed parsed namespace, or
 "rejected" - are identical, across channels, spellings and modes.
 
@@ -39,12 +45,15 @@ META = {
     "level": "exploration",
     "engine": "bounded exhaustive product on the real ArgumentParser (mc/checks/c05.py)",
     "technique": "exhaustive product type x unambiguous JSON value x channel x parser_mode x key position (plus every "
-    "dotted/nested spelling of two settings in one mapping and every exponent / escape spelling of the JSON text), "
+    "dotted/nested spelling of two settings in one mapping, every exponent / escape spelling of the JSON text, undefined "
+    "keys derived from the parser's names, every operation history of length <= 2 before the parse, every split of two "
+    "settings between environment and carrier x env/defaults flags), "
     "differential oracle: every channel/spelling/mode gives the identical typed result or rejects",
     "level_text": "Every member of the stated finite product is executed on the unmodified parser, each parse on a "
     "freshly built parser; the oracle is differential (the implementation against itself through another channel), so "
     "no expectation is hand-written. Within the stated type grammar and value alphabet the verdict is exhaustive; it is "
-    "the right level because the property quantifies over inputs x configurations, not over histories.",
+    "the right level because the property quantifies over inputs x configurations; parsers that were used or "
+    "re-configured before the parse are covered by full enumeration of short operation sequences (history block).",
     "level_note": "Trusted: the rendering functions of this file (JSON text via json.dumps, environment names "
     "PREFIX_KEY with '.' -> '__' as documented, derived here independently of the library), rule U that decides "
     "which (value, position) pairs are textually unambiguous, typed equality mc.util.tcanon. Not covered: types "
